@@ -23,6 +23,9 @@ CHECKS = {
  'C03': dict(cat='exploration', engine='E2', tech='bounded-exhaustive enumeration of (stored, requested) representation pairs x accessor alphabet, differential against permanent conversion / bare model',
    text='Every ordered pair of stored and requested loading x material representations (quick: 60x60 unit-class quotient; thorough: 513x513) and of the 10 pressure representations, for point isotherms (all accessors: whole branch, limits, interpolation at knots/midpoints/quarter points, scalar/list/array, both branches, foreign inputs) compared with a permanently converted copy read natively, and for model isotherms (Langmuir, Virial) compared with bare model composed with the reference conversion. The branch-guess rule is enumerated over all 363 pressure sequences of length 1-5 over {1,2,3} x 16 construction routes; interpolation clauses (knots, chords, refusal outside, fill) incl. every ordered pair of interpolation settings on one object.',
    note='Permanent conversion trusted as oracle only where it agrees with the SI reference (C02); numeric data on one monotonic two-branch data set (lattice phase scales loadings).', ref='§4 C03'),
+ 'C04': dict(cat='model_checking', engine='E1', tech='explicit-state exploration of the private cache state of real objects (generic deep digest) + complete depth-2 history enumeration, differential against the first-call outcome',
+   text='Part A enumerates ordered pairs of a ~110-query alphabet (accessors with every branch/kind/fill, spreading pressure below/inside/edge/above, exports, every characterisation entry point, fitting incl. user bounds, IAST helpers, adsorbate thermodynamics; heavy kernels in thorough) on freshly built objects; Part B runs a BFS to fixpoint (quick: depth 3) over the private state of all objects and library modules (interpolators, CoolProp state, module caches, lru_caches, class-level containers observed generically) under the cache-relevant sub-alphabet. In every state every query must give its first-call outcome (12 significant digits or the same error kind) and leave every object observably unchanged.',
+   note='Fixed alphabet; private state observed through __dict__/module containers/function caches; state inside C extensions other than CoolProp (T,Q,p) only covered by part A.', ref='§4 C04'),
 }
 
 def main():
